@@ -8,7 +8,7 @@ from . import common, place, xt
 from .xt import veq
 
 VMODES = ["ramp", "extreme", "minimal", "long", "emptyref"]  # emptyref: references bound to arrays without items (types with such references only)
-PY_FORMS = ["py"]
+PY_FORMS = ["py", "py-args"]  # py-args: the value of every struct-typed FIELD is a 1-tuple of constructor arguments (documented tuple dispatch)
 ND = ["nd", "ndF", "ndS", "ndD", "ndR", "ndFD", "ndTD", "ndB"]
 XOBJ = ["xobj-same", "xobj-other", "xobj-ctx", "xobj-kind", "xobj-nested", "xobj-slack", "ref-same", "ref-foreign", "xobj-view", "xobj-nested-view", "xobj-twin", "xobj-capslack",
         "xobj-dyn", "xobj-dyn-view", "xobj-dyn-len"]  # xobj-dyn*: a static-shape array built from an object of the all-dynamic class of the same shape
@@ -72,6 +72,9 @@ def forms_for(t, v, want):
         if f == "py":
             if xt.py_expressible(t, v):
                 out.append(f)
+        elif f == "py-args":
+            if xt.py_expressible(t, v) and any(s_[0] == "St" and any(ft[0] == "St" for _, ft in s_[1]) for s_ in xt.subtypes(t)):
+                out.append(f)
         elif f in ND:
             if has_sa and xt.nd_ok(t, v, f) or (f == "nd" and not xt.py_expressible(t, v)):
                 out.append(f)
@@ -133,6 +136,28 @@ def len_fill(t, v, obj):
         at, av, ah = (t, v, obj) if n == () else (dict(t[1])[n], v[n], getattr(obj, n))
         for idx, iv in av["items"].items():
             ah[idx if len(idx) > 1 else idx[0]] = xt.to_py(at[1], iv)
+
+
+def to_py_args(t, v, as_field=False):
+    """plain data in which the value of every struct-typed field of a struct is a 1-tuple holding the dictionary"""
+    k = t[0]
+    if k == "St":
+        d = {n: to_py_args(ft, v[n], True) for n, ft in t[1]}
+        return (d,) if as_field else d
+    if k == "A":
+        shape = v["shape"]
+
+        def rec(prefix, dd):
+            if dd == len(shape):
+                return to_py_args(t[1], v["items"][prefix])
+            return [rec(prefix + (i,), dd + 1) for i in range(shape[dd])]
+
+        return rec((), 0)
+    if k == "R":
+        return None if v is None else to_py_args(t[1], v)
+    if k == "U":
+        return None if v is None else (xt.build(t[1][v[0]]).__name__, to_py_args(t[1][v[0]], v[1]))
+    return v
 
 
 def base_arg(t, v):
@@ -308,6 +333,8 @@ def execute(t, v, form, pname, salt=0):
     # argument
     if form == "py":
         arg = xt.to_py(t, v)
+    elif form == "py-args":
+        arg = to_py_args(t, v)
     elif form in ND:
         arg = xt.to_nd(t, v, form)
     elif form in ("cap", "cap-np"):
